@@ -44,7 +44,8 @@ def main():
     def run_demos(tag):
         res = {}
         for n in names:
-            run = ("cargo test --offline -q --test %s%s" if kind == "test" else "cargo run --offline -q --example %s%s") % (n, feat)
+            rel = " --release" if "--release" in sys.argv else ""
+            run = ("cargo test --offline -q" + rel + " --test %s%s" if kind == "test" else "cargo run --offline -q" + rel + " --example %s%s") % (n, feat)
             rc, out = sh(run + " 2>&1 | tail -15", cwd=os.path.join(WT, crate), timeout=900)
             rc2, out2 = sh(run + " >/dev/null 2>&1; echo rc=$?", cwd=os.path.join(WT, crate), timeout=900)
             m = re.search(r"rc=(\d+)", out2)
@@ -94,7 +95,7 @@ def main():
             "demo_on_clean_tree": {k: v["rc"] for k, v in clean.items()},
             "tests_with_change": "47 passed",
             "demo_with_change": {k: v["rc"] for k, v in changed.items()},
-            "demo_kind": kind,
+            "demo_kind": kind, "demo_profile": "release" if "--release" in sys.argv else "dev",
             "commands": ["cd %s && cargo run --offline --example <demo>   (clean tree: exit 0; for demo_kind=test: copy to tests/ and cargo test --test <demo>)" % crate,
                          "git apply patch.diff && cargo nextest run --workspace --no-fail-fast --offline   (47 passed)",
                          "cd %s && cargo run --offline --example <demo>   (changed tree: non-zero exit)" % crate],
